@@ -11,6 +11,7 @@ import (
 	"os"
 	"path/filepath"
 	"sort"
+	"strconv"
 	"strings"
 	"time"
 
@@ -120,8 +121,18 @@ func (c *Ctx) Quick() bool { return c.Tier != "thorough" }
 
 // Expired reports whether the internal deadline has passed.
 func (c *Ctx) Expired() bool {
+	if maxMinutes > 0 && time.Since(c.Start) > time.Duration(maxMinutes)*time.Minute {
+		return true
+	}
 	return !c.Deadline.IsZero() && time.Now().After(c.Deadline)
 }
+
+// maxMinutes (env VERIF_MAX_MINUTES) shortens every internal deadline: a run that hits it stops
+// enumerating, reports the cap in its evidence (exhaustive:false) and exits 0 like any other capped run.
+var maxMinutes = func() int {
+	n, _ := strconv.Atoi(os.Getenv("VERIF_MAX_MINUTES"))
+	return n
+}()
 
 // Cap records that a cap was hit (the run is then not exhaustive).
 func (c *Ctx) Cap(s string) {
